@@ -40,3 +40,4 @@ def run(chk, st, tier):
                             "the real writer's file is decoded by the extracted validator (independent of the library's decoder) and every column's (rep,def,value) entries per row group are compared with the reference "
                             "Dremel.shred_record of the same records; the validator also checks level bounds and reassembles the records with the reference assembler. distinct = distinct shapes.")
     chk.coverage["explanation"] = "C03_* theorems (coq/props/C03.v) prove the reference striping lossless, level-bounded and sibling-consistent for all shapes and records; this run ties the generated shredders to it per shape."
+    chk.assumptions += ['the theorems are about the reference striping; generated shredders are compared with it per shape up to the enumeration bound (list lengths <= 2, <= 60 structures per shape)']
